@@ -239,7 +239,9 @@ def rename(s, smap):
 
 
 def is_log_call(t):
-    return isinstance(t, tuple) and t[0] == "call" and (str(t[1]).startswith("log::") or (str(t[1]).startswith("macro::") and str(t[1]).split("::")[-1] in LOG_MACROS))
+    # log statements, and pure Option / Result / conversion combinators (their effect is in the conditions and the returned term)
+    return isinstance(t, tuple) and t[0] == "call" and (str(t[1]).startswith(("log::", "std::result::Result::", "std::option::Option::", "std::convert::", "<enter>")) or
+                                                        (str(t[1]).startswith("macro::") and str(t[1]).split("::")[-1] in LOG_MACROS))
 
 
 def canon_path(p, smap):
@@ -366,7 +368,7 @@ def check(run, views, tier):
                 samples.append({"async": apath, "blocking": spath, "normalised_size": len(str(na)), "equal": d is None,
                                 "normalised_head": brief(na)[:300]})
             asyncness_ok = ab.get("is_async") or not sb.get("is_async")
-        run.floor("R-TWIN", n_pairs, 18, "sync/async sibling pairs")
+        run.floor("R-TWIN", n_pairs, 12, "sync/async sibling pairs")
         # no hand-written futures
         for imp in F.impls:
             if imp.get("trait") in ("std::future::Future", "futures_util::Future", "futures_util::Stream") and \
